@@ -93,6 +93,9 @@ def run(P, rep, tier):
     r177(P, rep)
     r179(P, rep)
     r1711(P, rep)
+    r1712(P, rep)
+    r1713(P, rep)
+    r1714(P, rep)
 
 
 def r1711(P, rep):
@@ -123,6 +126,207 @@ def r1711(P, rep):
     part('lookup', lambda: c09.r_lookup(P, u, sub))
     reissue(rep, 'R17.11', sub, 'a macro name would not have the replacement list of its most recent definition: ',
             keep=lambda o: ('replacement-list-token' in o['key'] or ':add_hideset:' in o['key'] or ':find_macro:' in o['key']))
+
+
+def _borrow(rep, rule, key, f):
+    """run a rule function of another property's module into a sub-report; a function that vanished or changed shape leaves the rule undecided"""
+    from ..interp import Unsupported, Infeasible
+    try:
+        return f()
+    except (AnalysisBroken, Unsupported, Infeasible) as e:
+        rep.undecided(rule, key + ':analysis', 'analysis could not proceed: %s' % e)
+    except (ImportError, AttributeError, TypeError, KeyError, IndexError, ValueError, RecursionError) as e:
+        rep.undecided(rule, key + ':borrowed-rule', 'the rule function re-used here could not be run: %r' % (e,))
+    except Exception as e:
+        if type(e).__name__ == 'NotConcrete':
+            rep.undecided(rule, key + ':not-concrete', 'the interpreter cannot follow a helper to a concrete result (%s)' % e)
+        else:
+            raise
+    return None
+
+
+def r1712(P, rep):
+    """the history the table sees is the history the program wrote: every `#define` / `#undef` line of the source is executed, whatever precedes it, and
+    nothing that macro replacement produced is.  What decides whether a line is a directive is at_bol (and origin) of its `#`; the only code that writes
+    these flags on existing tokens is expand_macro.  C09's rules on that function, re-used: an invocation that expands to nothing leaves the token after it
+    alone (R09.15, judged on the FINISHED replacement, whatever the stored list looks like), a token of a replacement is never taken for the `#` of a
+    directive (R09.16), and an expansion does not write the stored definition (R09.19)"""
+    from ..report import Report, reissue
+    rep.rule('R17.12', 'the operations applied to the macro table are exactly the #define/#undef lines of the source, in order: an invocation whose finished replacement is empty leaves at_bol/has_space of the token after it alone (so a directive on the next line is still recognised and executed), a token produced by replacement is never taken as the `#` of a directive, and expanding a macro never writes its stored definition (same obligations as C09 R09.15, R09.16, R09.19, the continuation/replacement-source part of R09.2 and R09.6); the dispatcher arms for `#define M` / `#undef M` apply exactly one operation to the name written and resume at the next line', floor=14)
+    u = P.unit('preprocess.c')
+    sub = Report('C09')
+
+    def go():
+        from . import c09
+        r = c09.r_expand(P, u, sub)
+        if r is not None:
+            c09.r_directive_source(P, u, sub, r[0], r[1])
+        c09.r_definition(P, u, sub)
+        return True
+    _borrow(rep, 'R17.12', 'preprocess.c:expand_macro', go)
+    reissue(rep, 'R17.12', sub, 'a #define/#undef of the source would not be the operation the macro table sees: ',
+            keep=lambda o: o['rule'] in ('R09.15', 'R09.16', 'R09.19', 'R09.6') or
+            (o['rule'] == 'R09.2' and o['key'].endswith(('-continuation', '-replacement-source'))))
+    _borrow(rep, 'R17.12', 'preprocess.c:preprocess2', lambda: _directive_arms(P, u, rep))
+
+
+def _directive_arms(P, u, rep):
+    """the dispatcher on `# define M` / `# undef M` at the beginning of a line: the arm applies exactly one operation, to the name written after the directive
+    name, and resumes at the next line (so the directive after it is seen)"""
+    from . import c10
+    from ..lib_c10 import Toks, register_nested_enums, explore_directive, calls, outcome, idx_of, spelled_from
+    register_nested_enums(u)
+    T = Toks(u)
+    fn = 'preprocess2'
+    where = 'preprocess.c:%d' % u.fn(fn).line
+    want = {'define': 'read_macro_definition', 'undef': 'undef_macro'}
+    for d in ('define', 'undef'):
+        it, res = explore_directive(P, u, T, d)
+        if not res:
+            rep.undecided('R17.12', 'preprocess.c:%s:%s-arm' % (fn, d), 'no path of the dispatcher on `#%s M` could be followed' % d, where=where)
+            continue
+        bad = {}
+        for ctx, out in res:
+            o = outcome(out)
+            ops = calls(ctx, tuple(want.values()) + ('add_macro', 'hashmap_put', 'hashmap_put2', 'hashmap_delete', 'hashmap_delete2'))
+            mine = [e for e in ops if e[1] == want[d]]
+            if o[0] == 'error':
+                bad.setdefault('rejected', (ctx, '`#%s M` with an identifier M ends in the diagnostic of %s()' % (d, o[1])))
+                continue
+            if len(mine) != 1 or len(ops) != 1:
+                bad.setdefault('not-one-operation', (ctx, '`#%s M` applies %s instead of exactly one %s()' % (d, [e[1] for e in ops] or 'no operation', want[d])))
+                continue
+            a = mine[0][2]
+            if d == 'define':
+                named = len(a) >= 2 and idx_of(ctx, a[1]) == 2
+            else:
+                src = spelled_from(a[0]) if a else None
+                named = src is not None and idx_of(ctx, src) == 2
+            if not named:
+                bad.setdefault('other-name', (ctx, '`#%s M` hands %s() something else than the name M written after the directive name' % (d, want[d])))
+                continue
+            if o[0] == 'ret':
+                bad.setdefault('line-not-consumed', (ctx, 'after `#%s M` the dispatcher runs to the end of the list without leaving the directive line' % d))
+                continue
+            ok, desc = c10._line_start_ok(ctx, o[1])
+            if not ok:
+                bad.setdefault('resumes-elsewhere', (ctx, 'after `#%s M` the dispatcher resumes at %s: text is dropped or processed twice, a directive on the next line is not seen' % (d, desc)))
+        rep.ob('R17.12', 'preprocess.c:%s:%s-arm-applies-one-operation-to-the-written-name' % (fn, d), not bad,
+               '%d kind(s) of wrong handling of `#%s M`: %s' % (len(bad), d, ', '.join(sorted(bad))), where=where, facts={'paths': len(res)})
+        for why, (ctx, msg) in sorted(bad.items()):
+            rep.ob('R17.12', 'preprocess.c:%s:%s-arm:%s' % (fn, d, why), False, msg + '; the macro table then does not reflect the directives of the source',
+                   where='preprocess.c:%d' % c10._arm_line(ctx, u.fn(fn).line), facts={'path': ctx.trail[-12:]})
+
+
+def r1713(P, rep):
+    """the include memo tables (guard memo, `#pragma once` table) answer "this file need not be read again".  That answer suppresses every #define/#undef the
+    file would execute, so it is admissible only when a second reading executes none: the whole file is one `#ifndef G` group without #elif/#else of its own,
+    nothing follows its #endif, and G is defined at the moment of the #include (looked up then, not remembered).  C10's rules on include_file and on the guard
+    recogniser, re-used"""
+    from ..report import Report, reissue
+    rep.rule('R17.13', 'an #include is answered from a memo table without reading the file only if reading it again could execute no #define/#undef: the guard recogniser accepts a file only as `#ifndef G` / `#define G` ... `#endif` <end of file> with every nested conditional skipped as a whole and no #elif/#else/#endif of the guard itself passed over, include_file takes the shortcut only for a `#pragma once` file or when the recorded guard macro is in the macro table right now, and memoises only what the recogniser answered under the path it looks up (same obligations as C10 R10.3 and the detect_include_guard part of R10.2)', floor=20)
+    u = P.unit('preprocess.c')
+    sub = Report('C10')
+
+    def go():
+        from . import c10
+        from ..lib_c10 import Toks, register_nested_enums, string_lits_compared
+        c10._declare_rules(sub)
+        register_nested_enums(u)
+        T = Toks(u)
+        c10.r103(P, u, T, sub)
+        lits = set()
+        for f in ('skip_cond_incl', 'skip_cond_incl2', 'detect_include_guard', 'preprocess2'):
+            if f in u.functions:
+                lits |= string_lits_compared(u.fn(f))
+        universe = list(c10.COND) + sorted(x for x in lits if x not in c10.COND and x != '#') + ['no_such_directive']
+        c10._r102_guard(P, u, T, sub, universe)
+        return True
+    _borrow(rep, 'R17.13', 'preprocess.c:include_file', go)
+
+    def keep(o):
+        k = o['key']
+        if o['rule'] == 'R10.3':
+            return True
+        if o['rule'] == 'R10.2' and ':detect_include_guard:' in k:
+            c = k.split(':detect_include_guard:', 1)[1]
+            return c.startswith(('scan/', 'depth-0-', 'opener-', 'not-a-conditional-directive/'))
+        return False
+    reissue(rep, 'R17.13', sub, 'a file whose second inclusion executes #define/#undef directives would be skipped (the names keep stale definitions): ', keep=keep)
+
+
+def r1714(P, rep):
+    """the identifier and tag tables of the parser are one dictionary per scope.  Last-write-wins and "gone after the scope is left" hold per scope only if
+    (a) every insertion goes into the table of the current scope, (b) a binding is replaced in place only through what the current scope's own table
+    answered - a binding found by walking the scope chain may belong to an enclosing scope and is read-only -, (c) lookups go innermost-first and
+    enter/leave push and pop exactly one scope (C03 R03.5, re-used)"""
+    from ..report import Report, reissue
+    rep.rule('R17.14', 'scope tables (identifiers, tags) are per-scope dictionaries: every insertion addresses the table of the current scope; a binding that a walk over the scope chain answered (find_var/find_tag or an inline walk) is never written through - completing or replacing a binding in place is done only through the lookup in the current scope\'s own table, so a block-scope declaration never changes what an enclosing scope binds; lookup is innermost-first, first hit wins, enter/leave push/pop one scope (C03 R03.5 re-issued)', floor=20)
+    pu = P.unit('parse.c')
+    U2 = 'parse.c'
+    S = L.ScopeTables(pu)
+
+    def resolve(f, k, idx_path=()):
+        """scope class of a parameter-relative table at the call sites of f"""
+        if not isinstance(k, tuple):
+            return {k}
+        if len(idx_path) > 3:
+            return {'unknown'}
+        out = set()
+        for g, gd in pu.functions.items():
+            for c in gd.calls(f):
+                a = c.args()
+                if k[1] >= len(a):
+                    out.add('unknown'); continue
+                out |= resolve(g, S.scope_of(g, a[k[1]]), idx_path + (f,))
+        return out or {'unknown'}
+    nput = nget = 0
+    for f in pu.functions:
+        where = lambda n: '%s:%d' % (U2, n.line)
+        for c, field, k in S.table_calls(f, 'put'):
+            nput += 1
+            ks = resolve(f, k)
+            if 'outer' in ks:
+                rep.ob('R17.14', '%s:%s:inserts-into-an-enclosing-scope/%s' % (U2, f, field), False,
+                       '%s enters a name into the `%s` table of a scope reached through the scope chain instead of the current scope: a declaration in a block would then bind (or rebind) the name in an enclosing scope and outlive the block' % (c.callee(), field), where=where(c))
+            elif ks == {'inner'}:
+                rep.ob('R17.14', '%s:%s:inserts-into-the-current-scope/%s' % (U2, f, field), True, '', where=where(c))
+            else:
+                rep.undecided('R17.14', '%s:%s:insert-scope/%s' % (U2, f, field), 'cannot tell which scope\'s table this insertion addresses', where=where(c))
+        for c, field, k in S.table_calls(f, 'delete'):
+            rep.ob('R17.14', '%s:%s:scope-table-delete/%s' % (U2, f, field), False, 'a binding is deleted from a scope table: bindings end with their scope, not before', where=where(c))
+        nget += len(S.table_calls(f, 'get'))
+        b = S.bindings(f)
+        if not b:
+            continue
+        st = {}
+        for vid, how, n in S.stores_through(f, b):
+            st.setdefault(vid, []).append((how, n))
+        for vid, (k, field, src) in b.items():
+            ks = resolve(f, k)
+            stores = st.get(vid, [])
+            if 'outer' in ks:
+                if not stores:
+                    rep.ob('R17.14', '%s:%s:%s-binding-answered-by-%s-only-read' % (U2, f, field, src), True, '', where=where(S._decl[f][vid]))
+                for how, n in stores:
+                    rep.ob('R17.14', '%s:%s:%s-binding-answered-by-%s-written/%s' % (U2, f, field, src, how), False,
+                           'the `%s` binding that %s answered (found by walking the scope chain, so possibly the binding of an ENCLOSING scope) is written in place (%s): a declaration in the current scope then writes through into the enclosing scope\'s table entry - `struct T;` at file scope, `struct T { char c[3]; };` inside a block completes the file-scope T with the block\'s layout, and the binding does not disappear when the block is left' % (field, src, how),
+                           where=where(n))
+            elif ks == {'inner'}:
+                for how, n in stores:
+                    rep.ob('R17.14', '%s:%s:%s-binding-of-the-current-scope-replaced-in-place/%s' % (U2, f, field, how), True, '', where=where(n))
+            elif stores:
+                rep.undecided('R17.14', '%s:%s:%s-binding-answered-by-%s' % (U2, f, field, src), 'a binding is written in place and the analysis cannot tell which scope\'s table answered it', where=where(stores[0][1]))
+    if nput < 2 or nget < 2:
+        rep.undecided('R17.14', '%s:scope-tables' % U2, 'only %d insertion(s) into / %d lookup(s) in a table of a Scope record found: the scope tables are not recognised any more' % (nput, nget))
+    sub = Report('C03')
+
+    def go():
+        from . import c03
+        c03.r035(P, sub)
+        return True
+    _borrow(rep, 'R17.14', 'parse.c:scope-chain', go)
+    reissue(rep, 'R17.14', sub, 'a name would not be bound per scope with the innermost binding winning: ', keep=lambda o: o['rule'] == 'R03.5')
 
 
 def _mk_map(ctx):
